@@ -117,17 +117,30 @@ def gen_s2(rng):
     types = [rng.randint(1, K) for _ in range(N)]
     T = rng.choice([1, 1, 2])
     frames = [[[dec(rng, 0, fl(H[k][k]), 2) for k in range(d)] for _ in range(N)] for _ in range(T)]
-    return {"kind": "s2", "d": d, "N": N, "K": K, "cell": kind, "H": H, "ppp": ppp, "rdelta": rdelta, "ndelta": ndelta,
+    if rng.random() < 0.3:
+        frames = [common.unfold_positions(rng, fr, H, ppp) for fr in frames]       # unfolded (xu) coordinates
+    Hs = None
+    if kind == "tri" and T >= 2 and rng.random() < 0.7:
+        # a sheared trajectory: same box lengths, another tilt in every frame
+        Hs = [H]
+        for _ in range(T - 1):
+            Ht = [row[:] for row in H]
+            for i in range(d):
+                for j in range(i):
+                    Ht[i][j] = dec(rng, -1, 1, 2)
+            Hs.append(Ht)
+    return {"kind": "s2", "Hs": Hs, "d": d, "N": N, "K": K, "cell": kind, "H": H, "ppp": ppp, "rdelta": rdelta, "ndelta": ndelta,
             "sig": sig, "types": types, "frames": frames}
 
 
 def ops_s2(c):
     d = c["d"]
     out = []
-    for pos in c["frames"]:
+    for t, pos in enumerate(c["frames"]):
+        Ht = c["Hs"][t] if c.get("Hs") else c["H"]
         out.append("s2 {} {} {} {} {} {} {} {} {} {} {}".format(
             d, c["N"], c["K"], c["ndelta"], c["rdelta"], " ".join(x for r in c["sig"] for x in r),
-            " ".join(c["H"][k][k] for k in range(d)), " ".join(x for r in c["H"] for x in r), " ".join(c["ppp"]),
+            " ".join(Ht[k][k] for k in range(d)), " ".join(x for r in Ht for x in r), " ".join(c["ppp"]),
             " ".join(str(t - 1) for t in c["types"]), " ".join(x for p in pos for x in p)))
     return out
 
@@ -137,7 +150,8 @@ def real_s2(c):
     d = c["d"]
     H = [[fl(x) for x in r] for r in c["H"]]
     L = [H[k][k] for k in range(d)]
-    snaps = _snaps([_snap(c["N"], c["types"], [[fl(x) for x in p] for p in pos], L, H) for pos in c["frames"]])
+    Hs = [[[fl(x) for x in r] for r in Ht] for Ht in c["Hs"]] if c.get("Hs") else [H] * len(c["frames"])
+    snaps = _snaps([_snap(c["N"], c["types"], [[fl(x) for x in p] for p in pos], L, Hs[t]) for t, pos in enumerate(c["frames"])])
     s2 = S2(snaps, np.array([[fl(x) for x in r] for r in c["sig"]]), np.array([int(x) for x in c["ppp"]]),
             rdelta=fl(c["rdelta"]), ndelta=c["ndelta"])
     with np.errstate(all="ignore"):
@@ -156,7 +170,9 @@ def oracle_s2(c):
     rmax = r[-1]
     rho = N / float(np.prod([H[k, k] for k in range(d)]))
     vals, oks = [], []
-    for pos in c["frames"]:
+    for t, pos in enumerate(c["frames"]):
+        if c.get("Hs"):
+            H = np.array([[fl(x) for x in r] for r in c["Hs"][t]])
         P = np.array([[fl(x) for x in p] for p in pos])
         row, okrow = [], []
         for i in range(N):
@@ -221,6 +237,8 @@ def gen_tetra(rng):
         if rng.random() < 0.5:
             ppp = ["1"] * 3
         pos = [[dec(rng, 0, fl(H[k][k]), 2) for k in range(3)] for _ in range(N)]
+        if rng.random() < 0.3:
+            pos = common.unfold_positions(rng, pos, H, ppp)       # unfolded (xu) coordinates
     return {"kind": "tetra", "N": N, "cell": cell, "H": H, "ppp": ppp, "pos": pos, "motif": motif}
 
 
@@ -288,7 +306,8 @@ def gen_nematic(rng):
     hasnb = rng.random() < 0.6
     rows = None
     nmax = 30
-    if hasnb:
+    prior = {"nb": rng.random() < 0.6, "eig": rng.random() < 0.5} if rng.random() < 0.4 else None
+    if hasnb or (prior and prior["nb"]):
         rows = []
         for _ in range(T):
             fr_rows = []
@@ -300,7 +319,7 @@ def gen_nematic(rng):
         if rng.random() < 0.3:
             nmax = rng.randint(1, 3)
     return {"kind": "nematic", "N": N, "unit": unit, "frames": frames, "hasnb": hasnb, "rows": rows, "nmax": nmax,
-            "eig": rng.random() < 0.5}
+            "eig": rng.random() < 0.5, "prior": prior}
 
 
 def ops_nematic(c, eig=None):
@@ -324,7 +343,7 @@ def real_nematic(c, eig=None):
         snaps = _snaps([_snap(N, [1] * N, [[fl(x) for x in u] for u in us], [6.0, 7.0], [[6.0, 0.0], [0.0, 7.0]])
                         for us in c["frames"]])
         nf = ""
-        if c["hasnb"]:
+        if c["rows"] is not None:
             nf = os.path.join(tmp, "nb.dat")
             with open(nf, "w") as f:
                 for fr_rows in c["rows"]:
@@ -332,8 +351,13 @@ def real_nematic(c, eig=None):
                     for i, r in enumerate(fr_rows):
                         f.write("{} {} {}\n".format(i + 1, len(r), " ".join(str(j + 1) for j in r)))
         no = NematicOrder(snaps, None)
+        if c.get("prior"):
+            # call history on ONE NematicOrder object: an earlier tensor() with the other neighbour setting / eigvals flag
+            with np.errstate(all="ignore"):
+                no.tensor(ndim=2, neighborfile=(nf if c["prior"]["nb"] else ""), Nmax=c["nmax"], eigvals=c["prior"]["eig"],
+                          outputfile=os.path.join(tmp, "nem0"))
         with np.errstate(all="ignore"):
-            res = no.tensor(ndim=2, neighborfile=nf, Nmax=c["nmax"], eigvals=eig, outputfile=os.path.join(tmp, "nem"))
+            res = no.tensor(ndim=2, neighborfile=(nf if c["hasnb"] else ""), Nmax=c["nmax"], eigvals=eig, outputfile=os.path.join(tmp, "nem"))
         return np.asarray(res), np.asarray(no.QIJ, dtype=float)
     finally:
         shutil.rmtree(tmp, ignore_errors=True)
